@@ -60,6 +60,34 @@ def replacement_node_rules(ctx, w, rule):
 
 
 
+def traversal_rules(ctx, w, rule):
+    """Full traversal (shared with C14: a child that is never passed to clean_node leaves the sanitizer untouched)."""
+    # ---- full traversal ---------------------------------------------------------------------------------------------
+    ctx.rule(rule, "clean_node: unless the verdict is Remove every element of node.children() is passed to clean_node; for Ignore the child is moved before the node first")
+    fc = w.fn(CL + IMPL + "clean_node")
+    dex = D.Dex(w.lookup, adt_discr=w.adt_discr, unroll=2, effects=lambda nme: nme.startswith("ruma_html::"))
+    paths = [p for p in dex.paths(fc, [D.sym("self"), D.sym("node"), D.sym("depth")]) if p.kind == "ret"]
+    bad = []
+    for p in paths:
+        tv = U.true_variants(p)
+        somes = sorted(s for s, v in tv.items() if s.startswith("Iterator::next(") and "children(" in s and v == "Some")
+        visited = [U.shows(e[1])[1] for e in p.effects if e[0].endswith("clean_node")]
+        if [s + ".Some.0" for s in somes] != visited:
+            bad.append((somes, visited))
+    ctx.check(bool(paths) and not bad, rule, f"{rule}:every-child", w.where(fc), bad_msg=f"children yielded vs cleaned: {bad[:1]}")
+    body = fc["body"]
+    cfg = M.Cfg(body)
+    loops = cfg.natural_loops()
+    exits_ok = True
+    for head, blocks in loops.items():
+        ex = [(b, s) for b in blocks for s in cfg.succ[b] if s not in blocks]
+        # the only way out of the children loop is the exhausted iterator
+        for b, s in ex:
+            t = body["blocks"][b]["t"]
+            exits_ok = exits_ok and t[0] == "switch"
+    ctx.check(exits_ok and len(loops) >= 1, rule, f"{rule}:no-break", w.where(fc), bad_msg="the children loop can be left other than by exhaustion")
+
+
 def run(ctx):
     fx = ctx.facts("A")
     w = W.World(fx, ["ruma_html"])
@@ -93,30 +121,7 @@ def run(ctx):
         ctx.check(not bad, "C15.locality", f"C15.locality:{p[len(CL + IMPL):]}", w.where(fn), bad_msg=f"reads the surrounding tree: {bad}")
     ctx.floor("verdict functions and closures", n, 6)
 
-    # ---- full traversal ---------------------------------------------------------------------------------------------
-    ctx.rule("C15.traversal", "clean_node: unless the verdict is Remove every element of node.children() is passed to clean_node; for Ignore the child is moved before the node first")
-    fc = w.fn(CL + IMPL + "clean_node")
-    dex = D.Dex(w.lookup, adt_discr=w.adt_discr, unroll=2, effects=lambda nme: nme.startswith("ruma_html::"))
-    paths = [p for p in dex.paths(fc, [D.sym("self"), D.sym("node"), D.sym("depth")]) if p.kind == "ret"]
-    bad = []
-    for p in paths:
-        tv = U.true_variants(p)
-        somes = sorted(s for s, v in tv.items() if s.startswith("Iterator::next(") and "children(" in s and v == "Some")
-        visited = [U.shows(e[1])[1] for e in p.effects if e[0].endswith("clean_node")]
-        if [s + ".Some.0" for s in somes] != visited:
-            bad.append((somes, visited))
-    ctx.check(bool(paths) and not bad, "C15.traversal", "C15.traversal:every-child", w.where(fc), bad_msg=f"children yielded vs cleaned: {bad[:1]}")
-    body = fc["body"]
-    cfg = M.Cfg(body)
-    loops = cfg.natural_loops()
-    exits_ok = True
-    for head, blocks in loops.items():
-        ex = [(b, s) for b in blocks for s in cfg.succ[b] if s not in blocks]
-        # the only way out of the children loop is the exhausted iterator
-        for b, s in ex:
-            t = body["blocks"][b]["t"]
-            exits_ok = exits_ok and t[0] == "switch"
-    ctx.check(exits_ok and len(loops) == 1, "C15.traversal", "C15.traversal:no-break", w.where(fc), bad_msg="the children loop can be left other than by exhaustion")
+    traversal_rules(ctx, w, "C15.traversal")
     # ---- depth monotonicity ------------------------------------------------------------------------------------------
     ctx.rule("C15.depth-monotone", "node_action reads `depth` only in a lower-bound test (depth >= / > limit) whose true outcome is NodeAction::Remove: "
                                    "clean_node hoists the children of ignored elements, so a second pass sees every surviving node at a depth <= the first "
